@@ -514,3 +514,52 @@ func verifHarness_C03_dial_registration_failure() {
 	verifStepBudgetEnd()
 	verifAssert(false, "witness")
 }
+
+// a dial with a timeout whose connect completes at any moment — also while
+// DialAsyncTimeout is still setting things up: once success has been reported,
+// the dial timeout must not close the established connection later.
+func verifHarness_C03_dial_timeout_vs_fast_connect() {
+	verifBound("preemptions", 2)
+	vkReset()
+	MaxOpenFiles = 32
+	mode := verifChoose("mode", 3)
+	g := NewEngine(verifEngineConf(mode))
+	closes := 0
+	var closeErr error
+	g.OnClose(func(c *Conn, err error) { closes++; closeErr = err })
+	verifSched(true, 2)
+	if err := g.Start(); err != nil {
+		verifFail("engine-start-failed", "")
+		return
+	}
+	// the peer accepts at any moment after connect(2) was issued (its own thread)
+	vk.onConnect = func(f *vkFd) { verifGo(func() { f.connectDone(0) }) }
+	ok, failed := 0, 0
+	err := g.DialAsyncTimeout("unix", "/verif.sock", time.Second, func(c *Conn, err error) {
+		if err == nil {
+			ok++
+		} else {
+			failed++
+		}
+	})
+	if err != nil {
+		verifFail("dial-starts", "")
+		return
+	}
+	verifJoin()
+	verifAssertD(ok+failed == 1, "dial-outcome-reported-exactly-once", "fast-connect")
+	// every timer that is still armed expires
+	for i := 0; i < verifTimerCount(); i++ {
+		if verifTimerArmed(i) {
+			verifFireTimer(i)
+			verifJoin()
+		}
+	}
+	if ok == 1 {
+		verifReach("connected")
+		verifAssertD(closes == 0, "no-stale-timer", "dial-timeout-after-success")
+		_ = closeErr
+	}
+	g.Stop()
+	verifAssert(false, "witness")
+}
